@@ -1204,6 +1204,11 @@ func (x *Exec) evalIdent(st *State, env *Env, name string) Value {
 			return x.pkgMember(st, env.pkg, name)
 		}
 	}
+	if nn, ok := x.renamed[name]; ok && nn != name {
+		// the local was renamed since the contract was written (same position, same type)
+		x.note("local " + name + " of the function under contract is now called " + nn)
+		return x.evalIdent(st, env, nn)
+	}
 	fail("unknown identifier %q in spec expression", name)
 	return nil
 }
